@@ -8,6 +8,7 @@ from typing import Any, NamedTuple
 from xsdata.utils.dates import (
     calculate_offset,
     calculate_timezone,
+    days_from_civil,
     format_date,
     format_offset,
     format_time,
@@ -491,9 +492,19 @@ class XmlTime(NamedTuple):
 DurationType = XmlTime | XmlDateTime
 
 
+def _timeline(obj: DurationType) -> int:
+    """Return the exact position on the UTC timeline in nanoseconds."""
+    days = 0
+    if isinstance(obj, XmlDateTime):
+        days = days_from_civil(obj.year, obj.month, obj.day)
+
+    minutes = days * 1440 + obj.hour * 60 + obj.minute - (obj.offset or 0)
+    return (minutes * 60 + obj.second) * 1_000_000_000 + obj.fractional_second
+
+
 def _cmp(a: DurationType, b: DurationType, op: Callable) -> bool:
     if isinstance(b, a.__class__):
-        return op(a.duration, b.duration)
+        return op(_timeline(a), _timeline(b))
 
     return NotImplemented
 
